@@ -12,7 +12,7 @@ from concurrent.futures import ThreadPoolExecutor
 
 from lib import gN, gbool, bspec_in, bspec_obs, lcg_bytes, hexs
 
-HEADER = "From CJ Require Import Common.Base C15.Model C15.ModelName C15.ModelObf C15.ModelAny C15.ModelDns C15.ModelB32 C15.ModelExch C15.ModelPb C15.ModelDot C15.Run.\n"
+HEADER = "From CJ Require Import Common.Base C15.Model C15.ModelName C15.ModelObf C15.ModelAny C15.ModelDns C15.ModelB32 C15.ModelExch C15.ModelPb C15.ModelDot C15.ModelSeq C15.Run.\n"
 DNSREG = "pkg/registrars/dns-registrar/"
 PKGS = {
     "msgformat": (".", DNSREG + "msgformat", "c15/msgformat_driver_test.go", "TestVerifC15Msgformat"),
@@ -845,11 +845,25 @@ def post_batch(ctx, c):
                     ctx.fail("seq/obf/%s/fresh-header" % v, "calls %d and %d of %d (%s): two held encodings carry the same 32-byte header (the same "
                              "ephemeral key and random bits)" % (heads[h] + 1, i + 1, n, mode), it.px._case({"header": h.hex()}))
                 heads.setdefault(h, i)
+    # the same batch through the sequence functions of the C15_seq theorems (enc_each / dec_each)
+    seqd = {"fmt/rt_req": 0, "fmt/rt_resp": 1, "fmt/rt_txt": 4, "obf/nil": 11}
+    if label in seqd or label == "obf/xor":
+        ins = [it.aux if it.fam == "fmt" else it.aux[1] for it in items]
+        rs = [it.res for it in items]
+        if label == "obf/xor":
+            terms.append("CSeqXor [%s] [%s]" % ("; ".join(hexs(t) for t in ins), "; ".join(
+                "(%s, %s, %s, %s)" % (gbool(r_["ok"]), hexs(bytes.fromhex(r_["out"])), gbool(r_["ok2"]), hexs(bytes.fromhex(r_["out2"]))) for r_ in rs)))
+        else:
+            terms.append("CSeqD %s [%s] [%s]" % (gN(seqd[label]), "; ".join(bspec_in(d) for d in ins), "; ".join(
+                "(%s, %s, %s, %s)" % (gbool(r_["ok"]), bspec_obs(bytes.fromhex(r_["out"])), gbool(r_["ok2"]), bspec_obs(bytes.fromhex(r_["out2"]))) for r_ in rs)))
     al = sorted(set(it.js["op"] + ("/" + it.js["variant"] if "variant" in it.js else "") for it in items if it.res.get("alias")))
     if al:
         ctx.cov.setdefault("decoded_value_shares_input_storage", [])
         ctx.cov["decoded_value_shares_input_storage"] = sorted(set(ctx.cov["decoded_value_shares_input_storage"]) | set(al))
-    return ["CBatch [%s]" % "; ".join(terms)] if terms else None
+    if not terms:
+        return None
+    seq_terms = [t for t in terms if t.startswith("CSeq")]
+    return ["CBatch [%s]" % "; ".join(t for t in terms if not t.startswith("CSeq"))] + seq_terms
 
 
 def post_encname(ctx, c):
@@ -1623,6 +1637,15 @@ def replay_cases(ctx):
             elif fam == "dot_recv":
                 b = bytes.fromhex(c["data"])
                 out.append(Case("dot_recv", "requester", {"op": "dot_recv", "data": b.hex()}, b))
+            elif fam == "batch" and c.get("js"):
+                js = c["js"]
+                top = {k: v for k, v in js.items() if k not in ("op", "items", "conc", "procs", "shared")}
+                out.append(mk_batch([item_of_js(j) for j in js["items"]], c["label"], c["mode"], **top))
+            elif fam == "exchange_seq" and c.get("js"):
+                its = [Case("exchange", "responder", j, (bytes.fromhex(j["data"]), bytes.fromhex(j["resp"]), unhexl(j["domain"]))) for j in c["js"]["items"]]
+                out.append(Case("exchange_seq", "responder", c["js"], {"items": its, "dom": unhexl(c["js"]["domain"])}))
+            elif fam == "rburst" and c.get("js"):
+                out.append(Case("rburst", "requester", c["js"], [bytes.fromhex(j["data"]) for j in c["js"]["items"]]))
             elif fam == "trim":
                 n, s = unhexl(c["labels"]), unhexl(c["suffix"])
                 out.append(Case("trim", "dns", {"op": "trim", "labels": hexl(n), "suffix": hexl(s)}, (n, s)))
@@ -1656,7 +1679,7 @@ def run(ctx):
     ctx.cov["rule"] = ("encoders on every payload/label/name length 0..limit+2 with random content, decoders on random and "
                        "near-valid byte strings (pointer chains, loops, truncation); a case is non-trivial if it is hash-distinct "
                        "and either succeeds or exercises a distinct rejection (counted per op)")
-    ctx.coq_props(props_files=["C15/Props.v", "C15/Props2.v"])
+    ctx.coq_props(props_files=["C15/Props.v", "C15/Props2.v", "C15/Props3.v"])
     rc, out = ctx.coq_make(["C15/Examples.vo", "C15/Run.vo"])
     if rc != 0:
         ctx.broken("examples", "non-vacuity examples (C15/Examples.v) or the case evaluator (C15/Run.v) no longer check: " + out[-500:])
